@@ -77,12 +77,12 @@ class Protocol(Component):
 
     def __process_packet(self, packet):
         packet = packet.decode('utf-8')
-        json.loads(packet)  # incomplete or malformed: ValueError, handled by add_buffer
+        data = json.loads(packet)  # incomplete or malformed: ValueError, handled by add_buffer
 
         # FIXME: the encoding of values is hardcoded to UTF-8.
         # at least protect against DoS attempts causing UnicodeDecodeError
 
-        if '"value":' in packet:  # FIXME: this can also be part of a call-value
+        if isinstance(data, dict) and 'value' in data:
             self.__process_packet_value(packet)
 
         else:
